@@ -89,6 +89,17 @@ class C08(Spec):
                             for v in ("A", "B"):
                                 c += setup(v, strategy) + SESSIONS[sess] + [f"C 2 {p}" for p in pre] + [f"C 1 {a.replace('{s}', 'alpha' if v == 'A' else 'beta-longer')}" for a in adm] + [f"C 2 {p}" for p in post] + ["C 1 keys $$*"]
                             cases.append(c)
+        # a USER-token session has no claim on the DEFAULT user's permission list ($$permission_$all is neither its token nor its own list): two
+        # servers that also differ in that list must answer the user alike — whatever further logins (refused ones too) the session attempts
+        logins = [[], ["use-db t wrongtok"], ["use-db t u wrongpw"], ["use-db nodb tok"], ["use-db t x guess"], ["use-db t wrongtok", "use-db t u upw"]]
+        acts = ["set secret 1", "get secret", "increment n", "remove secret", "keys", "set a1 v", "get a1", "watch secret"]
+        for lg in logins:
+            for a1 in acts:
+                for a2 in acts[:4]:
+                    c = []
+                    for v in ("A", "B"):
+                        c += setup(v) + ["C 1 set-permissions all " + ("r a*" if v == "A" else "rwix *")] + SESSIONS["usertoken"] + [f"C 2 {x}" for x in lg + [a1, a2]] + ["C 1 keys $$*"]
+                    cases.append(c)
         n2 = 1500 if tier == "quick" else 30000
         for _ in range(n2):
             sess = rng.choice(list(SESSIONS)); k = 2 + rng.below(2 if tier == "quick" else 5)
